@@ -416,6 +416,29 @@ pub fn run_history(rep: &mut Rep, h: &HistSpec, unchecked: bool, budget: usize, 
     let back: BitVectorMut = bv.clone().into();
     chk!(rep, "roundtrip_mut->imm->mut ==", n, Exp::Is(true), back == bvm);
     observe_light(rep, &back, &m, &mut rng);
+    // the history continues on the value that went through the immutable form (and on a clone and a
+    // deserialized copy): they must keep behaving like the model
+    {
+        let mut copies: Vec<(&'static str, BitVectorMut, Vec<bool>)> = vec![("after imm round trip", back.clone(), m.clone()), ("clone", bvm.clone(), m.clone())];
+        if let Ok(bytes) = bincode::serialize(&bvm) {
+            if let Ok(d) = bincode::deserialize::<BitVectorMut>(&bytes) {
+                copies.push(("deserialized", d, m.clone()));
+            }
+        }
+        let extra = if crate::tiny() { 4 } else { 24 };
+        for (what, mut b, mut mm) in copies {
+            for _ in 0..extra {
+                apply_op(rep, &mut b, &mut mm, &mut rng, h.profile);
+            }
+            if rep.trace {
+                rep.journal("continued_history", what);
+            }
+            observe_light(rep, &b, &mm, &mut rng);
+            if !crate::tiny() {
+                observe_full_opt(rep, &b, &mm, &mut rng, unchecked, budget.min(300), strict_end);
+            }
+        }
+    }
     // same bits by a different history: collect from bools
     let from_bools: BitVectorMut = m.iter().copied().collect();
     chk!(rep, "collect<bool> == history", n, Exp::Is(true), from_bools == bvm);
